@@ -232,6 +232,112 @@ theorem failed_commit_restores (hfix : Fixed cfg) (hms : cfg.methods.Nodup) {w :
   rw [deleteChanges_dids (w := { w1 with pub := pub }) ht1.1 ht1.2.1]
   exact (tx1_restore hfix hi ht : w1.dids.filterMap _ = w.dids)
 
+/-- **a stopped operation is resolved by the sweep, for all DIDs together**: in a reachable world without change records,
+    an operation whose first transaction committed and whose process then stopped — before whichever Commit call, or
+    before the clean-up transaction, having published `pub` so far —, followed by more than `threshold` seconds and the
+    sweep: EITHER the rows are exactly those from before the operation (every DID shows its previous version, created
+    DIDs are gone), OR every DID keeps the new version, all change records are gone, and the did:nuts network shows
+    exactly that version for the did:nuts DID. Whatever the iteration orders. -/
+theorem stopped_operation_resolved (hfix : Fixed cfg) (hms : cfg.methods.Nodup) {w0 w1 : World} (h : Reach cfg w0)
+    (hnone : ∀ r ∈ w0.dids, ∀ v ∈ r.vers, v.pending = none) {o : Op} {chs : List Change}
+    (ht : tx1 cfg w0 o = .ok (w1, chs)) (order : List Method) (k : Nat)
+    (hph : (commitLoop (.stop k) chs order 0 w1.pub).2 = .stopped ∨
+           ∃ i, (commitLoop (.stop k) chs order 0 w1.pub).2 = .completed i ∧ i ≤ k)
+    (d : Nat) (hd : cfg.threshold < d) (ord : List Nat → List Nat) (hord : ∀ l, (ord l).Perm l) :
+    let wStop := (stepOp cfg w0 o order (.stop k)).1
+    let w2 := (sweep cfg ord (tick d wStop)).1
+    (w2.dids = w0.dids ∨
+     (w2.dids = wStop.dids.map (clearRow w0.next) ∧
+      ∀ r ∈ wStop.dids, ∀ v vs p, r.vers = v :: vs → v.pending = some p → r.method = .nuts →
+        pubLatest w2.pub r.id = some v.c)) ∧
+    w2.pub = wStop.pub := by
+  intro wStop w2
+  have hs : wStop = { w1 with pub := (commitLoop (.stop k) chs order 0 w1.pub).1 } := stepOp_stopped order k ht hph
+  have := stopped_then_swept hfix hms (reach_inv hfix hms h) hnone ht (commitLoop (.stop k) chs order 0 w1.pub).1 d hd ord hord
+  simp only [w2, hs]
+  refine ⟨?_, this.2⟩
+  rcases this.1 with hl | ⟨hr1, hr2⟩
+  · exact Or.inl hl
+  · refine Or.inr ⟨hr1, ?_⟩
+    rw [this.2]
+    exact hr2
+
+/-- full statement of "keys created for an abandoned version are never published": no document stored or published at
+    any later time contains a key that was generated for a version which was deleted -/
+def AbandonedKeysNeverPublishedStmt (cfg : Cfg) : Prop :=
+  ∀ (w : World) (o : Op) (order : List Method) (f : Fault), Reach cfg w → Clean w.dids o.subject →
+    ∀ w', Reach cfg w' → ∀ k, w.next ≤ k → k < 2 * w.next + 2 →
+      (∀ r ∈ (stepOp cfg w o order f).1.dids, ∀ v ∈ r.vers, k ∉ v.c.vms) →
+      (∀ r ∈ w'.dids, ∀ v ∈ r.vers, k ∉ v.c.vms) ∧ ∀ d, ∀ c ∈ w'.pub d, k ∉ c.vms
+
+/-- **keys created for an abandoned version are not published** (partial). Proved: at the moment the version is
+    abandoned, the stored AND the published documents are exactly those from before the attempt — so they contain nothing
+    the attempt generated: (1) the did:nuts Commit fails: rows and publications restored by the clean-up transaction;
+    (2) the process stops before the first Commit call: publications untouched, and after the sweep either the rows are
+    restored or the version was kept (not abandoned). Missing for `AbandonedKeysNeverPublishedStmt`: that no LATER
+    operation re-introduces such a key (every later document is built from stored documents plus fresh ids — the
+    freshness invariant over `next` for published documents is not formalised), and stops after the first Commit call
+    with did:web first. The correspondence harness checks the full statement on every generated cut (oracle
+    `abandoned-key-visible`). -/
+theorem abandoned_keys_unpublished_partial (hfix : Fixed cfg) (hms : cfg.methods.Nodup) {w w1 : World}
+    (h : Reach cfg w) {o : Op} {chs : List Change} (ht : tx1 cfg w o = .ok (w1, chs)) (order : List Method) :
+    (∀ e, Clean w.dids o.subject → (commitLoop .failNuts chs order 0 w1.pub).2 = .failed e →
+        (stepOp cfg w o order .failNuts).1.dids = w.dids ∧ (stepOp cfg w o order .failNuts).1.pub = w.pub) ∧
+    ((∀ r ∈ w.dids, ∀ v ∈ r.vers, v.pending = none) →
+      ∀ (d : Nat), cfg.threshold < d → ∀ ord : List Nat → List Nat, (∀ l, (ord l).Perm l) →
+        let wStop := (stepOp cfg w o order (.stop 0)).1
+        let w2 := (sweep cfg ord (tick d wStop)).1
+        w2.pub = w.pub ∧ (w2.dids = w.dids ∨ w2.dids = wStop.dids.map (clearRow w.next))) := by
+  have hi := reach_inv hfix hms h
+  constructor
+  · intro e hc hph
+    refine ⟨(failed_commit_restores hfix hms h o order .failNuts hc ht hph).1, ?_⟩
+    have ht1 := tx1_ok hms hi hc ht
+    unfold stepOp
+    rw [ht]
+    simp only
+    rcases hcl : commitLoop .failNuts chs order 0 w1.pub with ⟨pub, ph⟩
+    have hpub : pub = w1.pub := by
+      have := commitLoop_failNuts_pub chs order 0 w1.pub
+      rw [hcl] at this; exact this
+    rw [hcl] at hph
+    simp only at hph
+    subst hph
+    simp only
+    unfold tx2
+    simp only [if_true]
+    show (deleteChanges cfg chs _).pub = w.pub
+    unfold deleteChanges
+    simp only [hpub, ht1.2.2.2.1]
+  · intro hnone d hd ord hord wStop w2
+    have hstop : (commitLoop (.stop 0) chs order 0 w1.pub).2 = .stopped ∨
+        ∃ i, (commitLoop (.stop 0) chs order 0 w1.pub).2 = .completed i ∧ i ≤ 0 := by
+      have key : ∀ (ms : List Method) (pub : Nat → List Content),
+          (commitLoop (.stop 0) chs ms 0 pub).2 = .stopped ∨ (commitLoop (.stop 0) chs ms 0 pub).2 = .completed 0 := by
+        intro ms
+        induction ms with
+        | nil => intro pub; exact Or.inr rfl
+        | cons m ms ih =>
+          intro pub
+          unfold commitLoop
+          split
+          · exact ih pub
+          · simp
+      rcases key order w1.pub with hk | hk
+      · exact Or.inl hk
+      · exact Or.inr ⟨0, hk, Nat.le_refl _⟩
+    have hres := stopped_operation_resolved hfix hms h hnone ht order 0 hstop d hd ord hord
+    have hclean : Clean w.dids o.subject := fun r hr _ v hv => hnone r hr v hv
+    have hs : wStop = { w1 with pub := (commitLoop (.stop 0) chs order 0 w1.pub).1 } := stepOp_stopped order 0 ht hstop
+    have hp0 : wStop.pub = w.pub := by
+      rw [hs]
+      show (commitLoop (.stop 0) chs order 0 w1.pub).1 = w.pub
+      rw [commitLoop_stop0_pub, (tx1_ok hms hi hclean ht).2.2.2.1]
+    refine ⟨by rw [← hp0]; exact hres.2, ?_⟩
+    rcases hres.1 with hl | ⟨hr, _⟩
+    · exact Or.inl hl
+    · exact Or.inr hr
+
 /-- **a repeated attempt can succeed**: whether the first transaction of an operation succeeds depends on the rows only —
     so after `failed_commit_restores` (rows restored) the same operation is enabled exactly as it was -/
 theorem retry_enabled {w w' : World} (o : Op) (hd : w'.dids = w.dids) :
@@ -259,6 +365,17 @@ example : logCount (tick 61 wStopped) = 2 ∧
 
 example : ∃ w1 chs e, tx1 (cfgNow [.nuts, .web]) {} (.create "s") = .ok (w1, chs) ∧
     (commitLoop .failNuts chs [.web, .nuts] 0 w1.pub).2 = .failed e := ⟨_, _, _, rfl, rfl⟩
+
+/-- hypotheses of `stopped_operation_resolved` / `abandoned_keys_unpublished_partial` are satisfiable: add-key on a created
+    subject, did:web committed first, the process stops before the did:nuts Commit -/
+example :
+    let cfg := cfgNow [.nuts, .web]
+    let w0 := (stepOp cfg {} (.create "s") [.nuts, .web] .none).1
+    (∀ r ∈ w0.dids, ∀ v ∈ r.vers, v.pending = none) ∧
+    ∃ w1 chs, tx1 cfg w0 (.addKey "s") = .ok (w1, chs) ∧
+      (commitLoop (.stop 1) chs [.web, .nuts] 0 w1.pub).2 = .stopped ∧
+      (commitLoop .failNuts chs [.web, .nuts] 0 w1.pub).2 = .failed "injected" :=
+  ⟨by decide, _, _, rfl, by decide, by decide⟩
 
 /-! ### Schedules the property does not quantify over (documented assumptions; witnesses, NOT claimed)
 
